@@ -1,6 +1,7 @@
 """C02: parsed expression trees follow the language's precedence/associativity; literals are exact."""
 import glob
 import json
+import re
 import os
 import struct
 
@@ -289,6 +290,9 @@ def worker(chk, wi, nw):
     for i, (tx, kind) in enumerate(lits):
         if i % nw == wi:
             check_literal(chk, st, orc, tx, kind)
+    for i, body in enumerate(DYN_BODIES):
+        if i % nw == wi:
+            check_dynamic_body(chk, st, orc, body)
     # random
     from hypothesis import strategies as hs
     n = (1400 if chk.tier == 'quick' else 25000)
@@ -313,9 +317,43 @@ def worker(chk, wi, nw):
     return st
 
 
+# ---------------------------------------------------------------- quantifiers over the instances of a dynamic template
+DYN_XML = ('<nta><declaration>dynamic Child(const int id); int g; int ga[3];</declaration><template><name>Parent</name><location id="id0"><name>A</name></location><init ref="id0"/>'
+           '<transition><source ref="id0"/><target ref="id0"/><label kind="assignment">spawn Child(g)</label></transition></template>'
+           '<template><name>Child</name><parameter>const int id</parameter><declaration>clock x; int c; int ca[3];</declaration><location id="id2"><name>C0</name></location><init ref="id2"/></template>'
+           '<system>P = Parent(); system P;</system></nta>')
+DYN_BODIES = ['p.c', 'p.c + 1', '1 + p.c', 'p.c * 2 + g', 'g - p.c - 1', 'p.c > 0 ? 1 : 0', '-p.c', 'p.ca[1]', 'p.ca[g] + ga[p.c]', 'p.c << 1 | g', 'p.c <? g', 'p.c ** 2', 'abs(p.c)', 'g + p.c * p.c']
+
+
+def check_dynamic_body(chk, st, orc, body):
+    """sum (p : T) BODY: like every quantifier the body extends as far to the right as it can, i.e. the text without parentheses around the body
+    gives the tree of the text with them"""
+    qs = ['simulate [<=10] { sum (p : Child) %s }' % body, 'simulate [<=10] { sum (p : Child) (%s) }' % body]
+    r = orc.request([dict(entry='xml-buffer', builder='document', newxta=1, input=DYN_XML, dump='none', actions='queries', queries=q) for q in qs])   # one document each
+    st.case('dyn:' + body, nontrivial=True, classes=['dynamic-quantifier-body'], sample={'min': qs[0], 'full': qs[1]})
+    case = {'kind': 'dynamic-body', 'body': body}
+    if 'crash' in r:
+        chk.report(st, {'mode': 'dynamic-sum', 'failure': 'crash', 'root': 'SUM_DYNAMIC', 'context': 'query'}, 'sum over a dynamic template with body %s crashes: %s' % (body, r['crash'].get('stderr', '')[:300]), case)
+        return
+    a, b = r['steps'][0]['queries'][0], r['steps'][1]['queries'][0]
+    for q in (a, b):      # the dump numbers the binder symbols of a request; the two queries have one each
+        q['exprs'] = [re.sub(r'@\?\d+/', '@?/', x) for x in (q.get('exprs') or [])]
+    if b.get('msgs') or not b.get('exprs'):
+        st.extra['dynamic_body_reference_not_accepted'] += 1
+        return
+    if a.get('msgs') or a.get('exprs') != b.get('exprs'):
+        chk.report(st, {'mode': 'dynamic-sum', 'failure': 'tree-differs' if not a.get('msgs') else 'rejected', 'root': 'SUM_DYNAMIC', 'context': 'query'},
+                   '%s -> %s %r, expected the tree of %s: %s' % (qs[0], (a.get('exprs') or ['-'])[0], a.get('msgs'), qs[1], b['exprs'][0]), case)
+
+
 def confirm(case):
     orc = oracle.Oracle(os.path.join(common.WORK, 'C02', 'confirm'), cpu_limit=30)
     try:
+        if case['kind'] == 'dynamic-body':
+            st = common.Stats()
+            chk = common.Check('C02', 'quick', 0)
+            check_dynamic_body(chk, st, orc, case['body'])
+            return ({}, st.violations[0]['what']) if st.violations else None
         if case['kind'] == 'tree':
             f = judged_tree(orc, tup(json.loads(case['tree'])), case.get('context', 'expr'))
             return ({}, f[2]) if f else None
